@@ -158,12 +158,15 @@ fn modules(tier: &str) -> Vec<(&'static str, Module)> {
         }
     }
     for f in signatures() {
-        let vf = f.clone();
+        // two different functions per block: their order is part of the module
+        let mut g = f.clone();
+        g.name = ident("g");
+        g.return_type = None;
         out.push((
             "signatures",
             Module::new()
-                .with_definitions([simple_type_def("T", vec![TypeStatement::vftable([vf.clone(), vf]), field("x", Type::ident("u32"))])])
-                .with_impls([FunctionBlock::new("T", [f.clone(), f])]),
+                .with_definitions([simple_type_def("T", vec![TypeStatement::vftable([f.clone(), g.clone()]), field("x", Type::ident("u32")), field("y", Type::ident("u8").const_pointer())])])
+                .with_impls([FunctionBlock::new("T", [g, f])]),
         ));
     }
     for len in 0..=3usize {
